@@ -243,7 +243,10 @@ func queryTextGen() *rapid.Generator[string] {
 func genAttack(t *rapid.T) attackCase {
 	var c attackCase
 	c.Kind = rapid.SampledFrom([]string{"server", "server", "server", "health"}).Draw(t, "kind")
-	files := []string{filepath.Join(root, "small.log"), filepath.Join(root, "mapr.log"), filepath.Join(root, "*.log"), filepath.Join(root, "nosuch.log"), "", ".", "/", "/proc/self/environ", "/dev/zero", root, "a b", "\x00"}
+	base := filepath.Base(root)
+	files := []string{root + "//*.log", root + "/./*.log", root + "/../" + base + "/*.log", root + "//small.log", root + "/./././s*.log", "/" + root + "/*.log", root + "/*.log/", root + "/*/../*.log",
+		filepath.Dir(root) + "//" + base + "/*", root + "///", "//", "/./*", "*", "./*", "*/", "[", root + "/[", root + "/s[a-", root + "/{a,b}", root + "/\\*", root + "/*/*/*/*/*/*",
+		filepath.Join(root, "small.log"), filepath.Join(root, "mapr.log"), filepath.Join(root, "*.log"), filepath.Join(root, "nosuch.log"), "", ".", "/", "/proc/self/environ", "/dev/zero", root, "a b", "\x00"}
 	n := rapid.IntRange(1, 5).Draw(t, "ncmds")
 	for i := 0; i < n; i++ {
 		switch rapid.IntRange(0, 11).Draw(t, "cmdk") {
